@@ -251,7 +251,13 @@ fn run(prop: Prop, ctx: &Ctx, rep: &mut Report) {
     let pre = prefixes();
     let full_len3: Vec<&str> = vec!["raw", "v1-con-get-tkl0"];
     for (pi, (name, head)) in pre.iter().enumerate() {
-        let maxlen: u32 = if ctx.thorough() || full_len3.contains(&name.as_str()) { 3 } else { 2 };
+        let maxlen: u32 = if ctx.thorough() && name == "v1-con-get-tkl0" {
+            4 // every possible 4-byte continuation of a plain header: 2^32 inputs
+        } else if ctx.thorough() || full_len3.contains(&name.as_str()) {
+            3
+        } else {
+            2
+        };
         let n = mccore::strings_upto_count(256, maxlen);
         let fam = format!("G1-{:02}-{}", pi, name);
         ctx.family(
